@@ -69,6 +69,11 @@ def _is_pointer_term(t, depth=0):
     if t[0] == 'call' and t[1] and t[1][0] == 'attr' and t[1][-1] in (
             'astype', 'copy'):
         return _is_pointer_term(t[1][1], depth + 1)
+    # np.asarray(indptr[1:-1]), np.array(..), np.copy(..): the same values
+    if t[0] == 'call' and t[1] and t[1][0] == 'attr' and t[1][-1] in (
+            'asarray', 'array', 'ascontiguousarray', 'copy', 'int64',
+            'intp') and t[2]:
+        return _is_pointer_term(t[2][0], depth + 1)
     return False
 
 
